@@ -1739,7 +1739,10 @@ impl GrafeoDB {
     ///
     /// Returns an error if the snapshot is invalid or deserialization fails.
     pub fn import_snapshot(data: &[u8]) -> Result<Self> {
-        let config = bincode::config::standard();
+        // Bound what the decoder may claim: a corrupt length prefix must produce an error,
+        // not an allocation of up to 2^64 bytes (which aborts the process).
+        const SNAPSHOT_DECODE_LIMIT: usize = 1 << 30;
+        let config = bincode::config::standard().with_limit::<SNAPSHOT_DECODE_LIMIT>();
         let (snapshot, _): (Snapshot, _) = bincode::serde::decode_from_slice(data, config)
             .map_err(|e| Error::Internal(format!("snapshot import failed: {e}")))?;
 
